@@ -281,6 +281,66 @@ def leaf_contracts():
             ensures={"case_mapped_text_of_the_argument": "self.value == str_of(self.children[0].g_value).%s()" % meth},
             returns="none", property_clauses={"case_mapped_text_of_the_argument": "C01"}, **base,
             assumptions=["str.lower()/upper() are uninterpreted: the clause pins down WHICH text is mapped (the argument's string form), not the mapping"]))
+    # ---- between()/inside()/range()/beyond(): the ordering core, for numbers (floats of the three arguments) and for stripped strings
+    bt_names = ["between", "inside", "from_to", "range", "beyond", "outside"]
+    lo_, hi_ = "(a if a <= b else b)", "(a if a >= b else b)"
+    for typ in ("num", "str"):
+        cs.append(Contract(
+            target=f"{FN}/boolean/between.py::Between._order", variant=f"of_{typ}", types={"me": typ, "a": typ, "b": typ, "self.name": "str"},
+            requires=[" or ".join(f"self.name == '{n}'" for n in bt_names)],
+            ensures={"strictly_between_the_bounds_in_either_order": "implies(self.name == 'between' or self.name == 'inside', result == (%s < me and me < %s))" % (lo_, hi_),
+                     "inclusive_for_range": "implies(self.name == 'range' or self.name == 'from_to', result == (%s <= me and me <= %s))" % (lo_, hi_),
+                     "strictly_outside_the_bounds": "implies(self.name == 'beyond' or self.name == 'outside', result == (me < %s or me > %s))" % (lo_, hi_)},
+            covers={"bounds_given_high_to_low": "a > b and result == True and self.name == 'between'", "on_a_bound": "me == a and self.name == 'range' and result == True"},
+            returns="bool", inline=INL + ["Between._compare", "Between._between"],
+            property_clauses={"strictly_between_the_bounds_in_either_order": "C01", "inclusive_for_range": "C01", "strictly_outside_the_bounds": "C01"},
+            doc={"strictly_between_the_bounds_in_either_order": "between.md: between(me, a, b) is exclusive and the bounds may come in either order; range/from_to include the bounds"},
+            **{k: v for k, v in base.items() if k != "inline"}))
+    sm, sa, sb = "strip(str_of(me))", "strip(a)", "strip(b)"
+    slo, shi = "(%s if %s <= %s else %s)" % (sa, sa, sb, sb), "(%s if %s >= %s else %s)" % (sa, sa, sb, sb)
+    cs.append(Contract(
+        target=f"{FN}/boolean/between.py::Between._try_strings", types={"me": "str", "a": "str", "b": "str", "self.name": "str"},
+        requires=[" or ".join(f"self.name == '{n}'" for n in bt_names)],
+        ensures={"compares_the_stripped_texts_strictly_between": "implies(self.name == 'between' or self.name == 'inside', result == (%s < %s and %s < %s))" % (slo, sm, sm, shi),
+                 "compares_the_stripped_texts_inclusive_for_range": "implies(self.name == 'range' or self.name == 'from_to', result == (%s <= %s and %s <= %s))" % (slo, sm, sm, shi),
+                 "compares_the_stripped_texts_strictly_outside": "implies(self.name == 'beyond' or self.name == 'outside', result == (%s < %s or %s > %s))" % (sm, slo, sm, shi)},
+        returns="bool", callee_variants={"Between._order": "of_str"},
+        property_clauses={"compares_the_stripped_texts_strictly_between": "C01", "compares_the_stripped_texts_inclusive_for_range": "C01", "compares_the_stripped_texts_strictly_outside": "C01"},
+        **base))
+    cs.append(Contract(
+        target=f"{FN}/boolean/between.py::Between._try_numbers", types={"me": "num", "a": "num", "b": "num", "self.name": "str"},
+        requires=[" or ".join(f"self.name == '{n}'" for n in bt_names)],
+        ensures={"numbers_strictly_between": "implies(self.name == 'between' or self.name == 'inside', result == (%s < me and me < %s))" % (lo_, hi_),
+                 "numbers_inclusive_for_range": "implies(self.name == 'range' or self.name == 'from_to', result == (%s <= me and me <= %s))" % (lo_, hi_),
+                 "numbers_strictly_outside": "implies(self.name == 'beyond' or self.name == 'outside', result == (me < %s or me > %s))" % (lo_, hi_),
+                 "numbers_always_decide": "result is not None"},
+        returns="optbool", callee_variants={"Between._order": "of_num"},
+        property_clauses={"numbers_strictly_between": "C01", "numbers_inclusive_for_range": "C01", "numbers_strictly_outside": "C01", "numbers_always_decide": "C01"},
+        **base))
+    tri = {"skip": "none", "self.children": "fixed[obj:Equality]", "self.children.0.children": "fixed[obj:Matchable,obj:Matchable,obj:Matchable]", "self.children.0.op": "str",
+           "self.match": "val", "self.name": "str"}
+    g3 = ["self.children[0].children[%d].g_value" % k for k in range(3)]
+    cs.append(Contract(
+        target=f"{FN}/boolean/between.py::Between._decide_match", variant="three_numbers",
+        types={**tri, **{"self.children.0.children.%d.g_value" % k: "optnum" for k in range(3)}},
+        requires=["self.children[0].op == ','", " or ".join(f"self.name == '{n}'" for n in bt_names)],
+        modifies=["self.match"] + ["self.children.0.children.%d.g_to_value_calls" % k for k in range(3)],
+        ensures={"a_missing_argument_does_not_match": "implies(%s is None or %s is None or %s is None, self.match is False)" % tuple(g3),
+                 "numbers_strictly_between": "implies(self.children[0].children[0].g_value is not None and self.children[0].children[1].g_value is not None and self.children[0].children[2].g_value is not None and (self.name == 'between' or self.name == 'inside'), self.match == ((self.children[0].children[1].g_value if self.children[0].children[1].g_value <= self.children[0].children[2].g_value else self.children[0].children[2].g_value) < self.children[0].children[0].g_value and self.children[0].children[0].g_value < (self.children[0].children[1].g_value if self.children[0].children[1].g_value >= self.children[0].children[2].g_value else self.children[0].children[2].g_value)))",
+                 "numbers_inclusive_for_range": "implies(self.children[0].children[0].g_value is not None and self.children[0].children[1].g_value is not None and self.children[0].children[2].g_value is not None and (self.name == 'range' or self.name == 'from_to'), self.match == ((self.children[0].children[1].g_value if self.children[0].children[1].g_value <= self.children[0].children[2].g_value else self.children[0].children[2].g_value) <= self.children[0].children[0].g_value and self.children[0].children[0].g_value <= (self.children[0].children[1].g_value if self.children[0].children[1].g_value >= self.children[0].children[2].g_value else self.children[0].children[2].g_value)))",
+                 "numbers_strictly_outside": "implies(self.children[0].children[0].g_value is not None and self.children[0].children[1].g_value is not None and self.children[0].children[2].g_value is not None and (self.name == 'beyond' or self.name == 'outside'), self.match == (self.children[0].children[0].g_value < (self.children[0].children[1].g_value if self.children[0].children[1].g_value <= self.children[0].children[2].g_value else self.children[0].children[2].g_value) or self.children[0].children[0].g_value > (self.children[0].children[1].g_value if self.children[0].children[1].g_value >= self.children[0].children[2].g_value else self.children[0].children[2].g_value)))"},
+        returns="none", inline=INL + ["Matchable.siblings", "Equality.commas_to_list"],
+        property_clauses={"a_missing_argument_does_not_match": "C01", "numbers_strictly_between": "C01", "numbers_inclusive_for_range": "C01", "numbers_strictly_outside": "C01"}, **{k: v for k, v in base.items() if k != "inline"}))
+    # ---- equals(a, b) on two numbers
+    cs.append(Contract(
+        target=f"{FN}/math/equals.py::Equals._decide_match", variant="two_numbers",
+        types={"skip": "none", "self.children": "fixed[obj:Equality]", "self.children.0.children": "fixed[obj:Matchable,obj:Matchable]", "self.children.0.op": "str", "self.match": "val",
+               "self.children.0.children.0.g_value": "num", "self.children.0.children.1.g_value": "num"},
+        modifies=["self.match", "self.children.0.children.0.g_to_value_calls", "self.children.0.children.1.g_to_value_calls"],
+        ensures={"numeric_equality": "self.match == (%s == %s)" % (a_, b_)},
+        covers={"zero_equals_zero": "%s == 0 and self.match == True" % a_},
+        returns="none", inline=INL + ["Equality.left", "Equality.right", "Equals._is_float"],
+        property_clauses={"numeric_equality": "C01"}, **{k: v for k, v in base.items() if k != "inline"}))
     # ---- exists(), empty(x)
     cs.append(Contract(target=f"{EU}::ExpressionUtility.is_empty", interface=True, types={"v": "val"}, ensures={"fn": "result == ufun_bool('is_empty', v)"}, returns="bool", class_fields=CF,
                        assumptions=["ExpressionUtility.is_empty(v) is a function of v only (None, 'None', 'nan', blank strings, empty containers: bounded in C01.bounded / C03.bounded)"]))
@@ -372,5 +432,6 @@ EXPLANATION = ("Proved for all inputs (chain CsvPath.next -> _consider_line -> M
                "once, in order, exactly when the per-line verdict holds; the verdict is the AND/OR of the component votes taken left to right; an Equality dispatches to "
                "assignment / when-do / equality test by its operator, once per line; '==' compares as written or as values; '->' runs its right side iff the left side matched; "
                "a function decides exactly once per line and an error below it is handed to the expression; a variable is an existence test (0 and '' exist); not/and/or/"
-               "yes/no/length and the strict and non-strict comparisons of AboveBelow are the documented operators -- with two known findings in AboveBelow (lt/below answer <=; "
+               "yes/no/length, equals() on numbers, between()/inside()/range()/from_to()/beyond()/outside() (bounds in either order, strict vs inclusive, a missing argument does not match; "
+               "numbers and stripped strings) and the strict and non-strict comparisons of AboveBelow are the documented operators -- with two known findings in AboveBelow (lt/below answer <=; "
                "cells compare as strings). Bounded (not proved): the end-to-end reference evaluation over generated programs and files.")
